@@ -1854,7 +1854,7 @@ def rec_part(ctx: vlib.Ctx, mod, mem: Members):
                         bad = [c for c in node_cls if c != "agree"]
                         cls = bad[0] if bad and all(c in KF_KINDS for c in bad) else "other"
                     else:
-                        cls = REC_KIND if trigger else "other"
+                        cls = "other"   # recursive-union-method-reuse is repaired: checked at full strength
                     ctx.count(("rec", form, r.container, entry, type(d).__name__, cls, observed[0]))
                     ctx.hist("rec_outcome", "decode/" + cls + "/" + observed[0])
                     if cls != "agree":
@@ -1902,7 +1902,7 @@ def rec_part(ctx: vlib.Ctx, mod, mem: Members):
                 bad = [c for c in node_cls if c != "agree"]
                 cls = bad[0] if bad and all(c == "union-encode-untyped-try" for c in bad) else "other"
             else:
-                cls = REC_KIND if trigger else "other"
+                cls = "other"   # recursive-union-method-reuse is repaired: checked at full strength
             ctx.count(("rec-enc", form, r.container, entry, cls, observed[0]))
             ctx.hist("rec_outcome", "encode/" + cls + "/" + observed[0])
             if cls != "agree":
